@@ -39,7 +39,7 @@ Enabled(s, a, MaxLen) ==
       [] a.k = "truncate" -> s.n - a.drop >= 4 /\ ~s.reshaped
       [] a.k = "recreate" -> (s.n - 1) * a.n + 1 <= MaxLen
       [] a.k = "integral_match" -> s.rec                               \* documented use: right after recreate
-      [] a.k = "append" -> s.n + 1 <= MaxLen
+      [] a.k = "append" -> s.n + 1 <= MaxLen /\ s.r + 1 <= MaxLen
       [] a.k \in {"interpolate_n", "interpolate_grid", "smooth"} -> s.n >= 5
       [] OTHER -> TRUE
 
